@@ -136,18 +136,73 @@ impl S {
                 self.act(format!("votes for tip r{} to R (leader of r{})", self.tip.round, round));
                 let (h, r0) = (self.tip.digest(), self.tip.round);
                 self.p.certified.insert(h.clone());
+                if self.rng.gen_bool(0.35) {
+                    // C04 probe: by-construction-invalid votes for exactly this (block, round), fresh
+                    // and addressed to the collecting leader, before the valid ones arrive.
+                    let donor = signers[0];
+                    let good = self.p.mk_vote(donor, &h, r0);
+                    let mut forged = Vec::new();
+                    // (a) in the name of the receiver itself, signature of somebody else
+                    let mut v = good.clone();
+                    v.author = self.p.name(self.p.r);
+                    forged.push(("vote in the receiver's own name with a transplanted signature", v));
+                    // (b) in the name of another member, signature of the donor
+                    let others: Vec<usize> = self.p.puppets().into_iter().filter(|x| *x != donor).collect();
+                    if let Some(o) = others.first() {
+                        let mut v = good.clone();
+                        v.author = self.p.name(*o);
+                        forged.push(("vote with a signature of another member", v));
+                    }
+                    // (c) signature made for the next round
+                    let mut v = good.clone();
+                    v.signature = self.p.mk_vote(donor, &h, r0 + 1).signature;
+                    forged.push(("vote with a signature made for another round", v));
+                    // (d) one bit of the signature flipped
+                    let mut v = good.clone();
+                    let mut bytes = bincode::serialize(&v.signature).unwrap();
+                    let bit = self.rng.gen_range(0, 512);
+                    bytes[bit / 8] ^= 1 << (bit % 8);
+                    v.signature = bincode::deserialize(&bytes).unwrap();
+                    forged.push(("vote with one signature bit flipped", v));
+                    let k = self.rng.gen_range(1, forged.len() + 1);
+                    for (what, v) in forged.into_iter().take(k) {
+                        self.act(format!("invalid variant (fresh): {}", what));
+                        let from = *self.p.puppets().choose(&mut self.rng).unwrap();
+                        self.p.send(from, &ConsensusMessage::Vote(v)).await;
+                    }
+                    self.p.settle().await;
+                }
                 for i in signers {
                     let v = self.p.mk_vote(i, &h, r0);
                     self.send(i, ConsensusMessage::Vote(v)).await;
+                    if self.rng.gen_bool(0.3) {
+                        self.p.settle().await;
+                    }
                 }
             } else if round > 1 {
                 let hq = self.tip_qc.clone();
                 let mut signers = self.p.random_quorum(&mut self.rng);
                 signers.shuffle(&mut self.rng);
                 self.act(format!("timeouts r{} to R (leader of r{})", round - 1, round));
+                if self.rng.gen_bool(0.35) {
+                    let donor = signers[0];
+                    let good = self.p.mk_timeout(donor, round - 1, hq.clone());
+                    let mut t = good.clone();
+                    t.author = self.p.name(self.p.r);
+                    self.act("invalid variant (fresh): timeout in the receiver's own name with a transplanted signature");
+                    self.p.send(donor, &ConsensusMessage::Timeout(t)).await;
+                    let mut t = good.clone();
+                    t.signature = self.p.mk_timeout(donor, round, hq.clone()).signature;
+                    self.act("invalid variant (fresh): timeout with a signature made for another round");
+                    self.p.send(donor, &ConsensusMessage::Timeout(t)).await;
+                    self.p.settle().await;
+                }
                 for i in signers {
                     let t = self.p.mk_timeout(i, round - 1, hq.clone());
                     self.send(i, ConsensusMessage::Timeout(t)).await;
+                    if self.rng.gen_bool(0.3) {
+                        self.p.settle().await;
+                    }
                 }
             }
             self.settle().await;
@@ -193,13 +248,14 @@ pub struct PuppetOutcome {
     pub extra: serde_json::Value,
 }
 
-async fn start(seed: u64, p: &Params, rng: &mut StdRng) -> S {
+pub async fn start(seed: u64, p: &Params, rng: &mut StdRng) -> S {
     let n = p.get_u64("n").map(|x| x as usize).unwrap_or_else(|| rng.gen_range(4, 8));
     let r = p.get_u64("r").map(|x| x as usize).unwrap_or_else(|| rng.gen_range(0, n));
     let stakes = if p.get_u64("equal_stakes").unwrap_or(0) == 1 { vec![1; n] } else { pick_stakes(rng, n, r) };
     let timeout_ms = p.get_u64("timeout_ms").unwrap_or(1_000);
     let sync_retry_ms = p.get_u64("sync_retry_ms").unwrap_or(2_000);
-    let pup = Puppets::start(n, stakes, r, seed, timeout_ms, sync_retry_ms).await;
+    let full_node = p.get_u64("full_node").unwrap_or(0) == 1;
+    let pup = Puppets::start_mode(n, stakes, r, seed, timeout_ms, sync_retry_ms, full_node).await;
     S {
         p: pup,
         rng: StdRng::seed_from_u64(seed ^ 0xabcdef),
